@@ -362,7 +362,7 @@ Proof. intros H. rewrite (nth_indep _ VUnset (v_strs [])) by (rewrite map_length
 Ltac ev :=
   cbn [eval evals ebind slice_from_val slice_range_val be_val has_val nth_error binop_val binop_int binop_str binop_bool is_nilish
        items_of set_opt upd get nth assign_all assign1 loop_ctl Nat.eqb call_result ret_of
-       wp_items f_nparams f_nvars f_outs f_body byte_val map negb Bool.eqb orb andb].
+       wp_items f_nparams f_nvars f_outs f_body byte_val map negb Bool.eqb orb].
 
 (** [start_func go_f]: from [exists fuel, run_func fuel p go_f args = r] to a [wp] goal over the
     translated body with the initial environment computed *)
@@ -403,7 +403,7 @@ Proof. apply map_length. Qed.
 Ltac lens := rewrite ?length_map_VStr, ?length_map_v_strs, ?length_map_v_nat, ?length_map_byte_val in *.
 Ltac side := lens; lia.
 
-Lemma ltb0_false z : 0 <= z -> (z <? 0) = false.
+Lemma is_neg_false z : 0 <= z -> is_neg z = false.
 Proof. intros H. apply Z.ltb_ge. exact H. Qed.
 
 Lemma leb_true a b : (a <= b)%nat -> (a <=? b)%nat = true.
@@ -418,7 +418,7 @@ Ltac norm1 :=
     | rewrite wrap_u8 by side
     | rewrite wrap_u64 by side
     | rewrite leb_true by (rewrite ?skipn_length; side)
-    | rewrite ltb0_false by side
+    | rewrite is_neg_false by side
     | rewrite length_map_VStr | rewrite length_map_v_strs | rewrite length_map_v_nat
     | rewrite in_bounds_true by side
     | rewrite in_bounds_incl_true by side
